@@ -452,8 +452,14 @@ func (w *World) serveOCSP(cp *CertPlan, src *OCSPSrc) func(x *Exchange, req *htt
 		case SgUnrelatedSelf:
 			spec.SignerKey, spec.ResponderCert, spec.Embed = w.UnrelCert.Key, w.UnrelCert.X, []*x509.Certificate{w.UnrelCert.X}
 		}
+		if c.Pad != 0 && x.ReadCap > 0 {
+			spec.PadTo = int(x.ReadCap) + c.Pad - 2
+		}
 		b := EncodeOCSP(spec)
 		sv.Len = len(b)
+		if spec.PadTo > 0 && len(b) != spec.PadTo {
+			sv.Content.Pad = 0 // not reachable for this signer (signature values of varying length)
+		}
 		if selfCheckSampled(x, len(b)) {
 			selfCheckOCSP(b, sv, cp.Serial, issuer.X)
 		}
@@ -1263,7 +1269,12 @@ func (sc *RevScenario) execInBubble(obs *RevObs, altSeed uint32, onlyWorld int, 
 			// the results as they are at the return instant: a goroutine the
 			// call left behind must not be able to complete them afterwards
 			if co.Results != nil {
-				co.Results = append([]*result.CertRevocationResult(nil), co.Results...)
+				orig := co.Results
+				co.Results = deepCopyResults(orig)
+				// the results belong to the caller now, who may do with them
+				// what it likes: later answers of the library (to this caller
+				// or another) must not depend on these objects
+				scribbleResults(orig)
 			}
 		}
 		switch {
@@ -1401,4 +1412,42 @@ func (w *World) stArg() time.Time {
 		return w.ST
 	}
 	return time.Time{}
+}
+
+func deepCopyResults(rs []*result.CertRevocationResult) []*result.CertRevocationResult {
+	out := make([]*result.CertRevocationResult, len(rs))
+	for i, r := range rs {
+		if r == nil {
+			continue
+		}
+		c := *r
+		if r.ServerResults != nil {
+			c.ServerResults = make([]*result.ServerResult, len(r.ServerResults))
+			for j, sr := range r.ServerResults {
+				if sr != nil {
+					cs := *sr
+					c.ServerResults[j] = &cs
+				}
+			}
+		}
+		out[i] = &c
+	}
+	return out
+}
+
+// scribbleResults is a caller that annotates and reuses the result objects it
+// was handed.
+func scribbleResults(rs []*result.CertRevocationResult) {
+	for _, r := range rs {
+		if r == nil {
+			continue
+		}
+		for _, sr := range r.ServerResults {
+			if sr != nil {
+				sr.Server, sr.Result, sr.RevocationMethod = "http://annotated.by.caller/", result.ResultRevoked, result.RevocationMethodCRL
+			}
+		}
+		r.Result, r.RevocationMethod = result.ResultRevoked, result.RevocationMethodOCSPFallbackCRL
+		r.ServerResults = append(r.ServerResults, &result.ServerResult{Server: "http://appended.by.caller/", Result: result.ResultOK, RevocationMethod: result.RevocationMethodOCSP})
+	}
 }
